@@ -11,13 +11,14 @@ def runOps (f : Nat) (o c : Addr) : Heap → List (Bool × Op) → List Sexp
     snap h' o c :: runOps f o c h' r
 
 def step : Sexp → Option Sexp
+  | list [atom "c17", _, _, _, list [atom "model", m]] => step m
   | list [atom "clone17", hp, root, list ops] => do
     let h ← decHeap hp
     let o ← root.toNat?
     let ops ← ops.mapM decOp
     let f := 2 * h.size + 8
     let (h1, c) := clone f h o
-    pure (list (atom "ok" :: ofBool h1.unres :: snap h1 o c :: runOps (f + 64) o c h1 ops))
+    pure (list (atom "ok" :: ofBool h1.unres :: regOwner h1 o :: snap h1 o c :: runOps (f + 64) o c h1 ops))
   | _ => none
 
 def main : IO Unit := driverMain step
